@@ -73,8 +73,7 @@ def events(ctx, fn):
     return out
 
 
-def order(R, ctx):
-    rid = "C09.order"
+def order(R, ctx, rid="C09.order"):
     lib = ctx.lib
     R.rule(rid, "scope event order in ScopeVisitor and ScopePostVisitor (see module doc): values before insert_local; bounds/iterators before push; "
                 "push < insert < body < pop; insert_local_function before push; function name processed before push; repeat: push < block < "
